@@ -28,11 +28,13 @@ Local Open Scope N_scope.
 
 (* An exception in flight never has code Okay; an Error carries its error data; and so does a
    Return that will become an Error (the third clause is what makes the invariant survive
-   decrement_level). *)
+   decrement_level); its level fits a usize (it comes from [level_of_int] and only decreases:
+   this is what makes the -level entry of the options dictionary read back as the same level). *)
 Definition exn_ok (e : exn) : Prop :=
   x_code e <> COkay /\
   (x_code e = CError -> x_data e <> None) /\
-  (x_code e = CReturn -> x_next e = CError -> x_data e <> None).
+  (x_code e = CReturn -> x_next e = CError -> x_data e <> None) /\
+  x_level e < 2 ^ 64.
 
 Definition no_panic {A} (r : res A) : Prop := forall p, r <> Panic p.
 
@@ -49,35 +51,41 @@ Lemma rgood_no_panic {A} (r : res A) : rgood r -> no_panic r.
 Proof. intros H p E. subst r. exact H. Qed.
 
 Lemma exn_ok_molt_err_v m : exn_ok (molt_err_v m).
-Proof. unfold exn_ok, molt_err_v. cbn. repeat split; intros; discriminate. Qed.
+Proof. unfold exn_ok, molt_err_v. cbn. repeat split; intros; try discriminate; reflexivity. Qed.
 Lemma exn_ok_molt_err m : exn_ok (molt_err m).
 Proof. apply exn_ok_molt_err_v. Qed.
 Lemma exn_ok_molt_err2 c m : exn_ok (molt_err2 c m).
-Proof. unfold exn_ok, molt_err2. cbn. repeat split; intros; discriminate. Qed.
+Proof. unfold exn_ok, molt_err2. cbn. repeat split; intros; try discriminate; reflexivity. Qed.
 Lemma exn_ok_break : exn_ok molt_break.
-Proof. unfold exn_ok, molt_break. cbn. repeat split; intros; discriminate. Qed.
+Proof. unfold exn_ok, molt_break. cbn. repeat split; intros; try discriminate; reflexivity. Qed.
 Lemma exn_ok_continue : exn_ok molt_continue.
-Proof. unfold exn_ok, molt_continue. cbn. repeat split; intros; discriminate. Qed.
+Proof. unfold exn_ok, molt_continue. cbn. repeat split; intros; try discriminate; reflexivity. Qed.
 
-Lemma exn_ok_return_err m l ec ei : exn_ok (molt_return_err m l ec ei).
+Lemma level_of_int_lt z : level_of_int z < 2 ^ 64.
 Proof.
-  unfold exn_ok, molt_return_err. cbn [x_code x_data x_next].
-  destruct (l =? 0); repeat split; intros; discriminate.
+  unfold level_of_int. pose proof (Z.mod_pos_bound z (2 ^ 64)%Z ltac:(lia)) as B.
+  change (2 ^ 64) with (Z.to_N (2 ^ 64)). lia.
+Qed.
+
+Lemma exn_ok_return_err m l ec ei : l < 2 ^ 64 -> exn_ok (molt_return_err m l ec ei).
+Proof.
+  intros Hl. unfold exn_ok, molt_return_err. cbn [x_code x_data x_next x_level].
+  destruct (l =? 0); repeat split; intros; try discriminate; exact Hl.
 Qed.
 
 Lemma exn_ok_return_ext v l c :
-  rcode_eqb c CError = false -> (l =? 0) && rcode_eqb c COkay = false ->
+  l < 2 ^ 64 -> rcode_eqb c CError = false -> (l =? 0) && rcode_eqb c COkay = false ->
   exn_ok (molt_return_ext v l c).
 Proof.
-  intros H1 H2. unfold exn_ok, molt_return_ext.
+  intros Hl H1 H2. unfold exn_ok, molt_return_ext.
   destruct (l =? 0) eqn:El.
   - apply N.eqb_eq in El. subst l.
     destruct c; cbn in H1, H2; try discriminate; cbn [andb rcode_eqb];
-      change (0 <? 1) with true; change (0 <? 0) with false; cbn [x_code x_data x_next];
-      repeat split; intros; discriminate.
-  - cbn [andb]. cbn [x_code x_data x_next].
-    assert (Hl : (0 <? l) = true) by lia. rewrite Hl.
-    repeat split; intros; try discriminate. subst c. discriminate.
+      change (0 <? 1) with true; change (0 <? 0) with false; cbn [x_code x_data x_next x_level];
+      repeat split; intros; try discriminate; reflexivity.
+  - cbn [andb]. cbn [x_code x_data x_next x_level].
+    assert (Hl0 : (0 <? l) = true) by lia. rewrite Hl0.
+    repeat split; intros; try discriminate; try exact Hl. subst c. discriminate.
 Qed.
 
 Lemma exn_ok_return_plain v : exn_ok (molt_return_ext v 1 COkay).
@@ -85,8 +93,8 @@ Proof. apply exn_ok_return_ext; reflexivity. Qed.
 
 Lemma exn_ok_add_info e line : exn_ok e -> exn_ok (add_error_info e line).
 Proof.
-  unfold exn_ok, add_error_info. cbn [x_code x_data x_next]. intros (H1 & H2 & H3).
-  repeat split; [exact H1| |]; intros; destruct (x_data e) eqn:E; try discriminate.
+  unfold exn_ok, add_error_info. cbn [x_code x_data x_next x_level]. intros (H1 & H2 & H3 & H4).
+  repeat split; [exact H1| | |exact H4]; intros; destruct (x_data e) eqn:E; try discriminate.
   - now apply H2.
   - now apply H3.
 Qed.
@@ -96,18 +104,18 @@ Lemma decrement_level_ok e :
   exn_ok e -> x_code e = CReturn ->
   x_code (decrement_level e) = COkay \/ exn_ok (decrement_level e).
 Proof.
-  intros (H1 & H2 & H3) Hc. unfold decrement_level.
+  intros (H1 & H2 & H3 & H4) Hc. unfold decrement_level.
   destruct (x_level e - 1 =? 0).
   - destruct (rcode_eqb (x_next e) CReturn) eqn:En.
-    + right. unfold exn_ok. cbn. repeat split; intros; discriminate.
+    + right. unfold exn_ok. cbn. repeat split; intros; try discriminate; reflexivity.
     + destruct (x_next e) eqn:Ex; cbn in En; try discriminate.
       * left. reflexivity.
-      * right. unfold exn_ok. cbn [x_code x_data x_next]. repeat split; intros; try discriminate.
+      * right. unfold exn_ok. cbn [x_code x_data x_next x_level]. repeat split; intros; try discriminate; try reflexivity.
         apply H3; [exact Hc|reflexivity].
-      * right. unfold exn_ok. cbn [x_code x_data x_next]. repeat split; intros; discriminate.
-      * right. unfold exn_ok. cbn [x_code x_data x_next]. repeat split; intros; discriminate.
-      * right. unfold exn_ok. cbn [x_code x_data x_next]. repeat split; intros; discriminate.
-  - right. unfold exn_ok. cbn [x_code x_data x_next]. repeat split; intros; auto.
+      * right. unfold exn_ok. cbn [x_code x_data x_next x_level]. repeat split; intros; try discriminate; reflexivity.
+      * right. unfold exn_ok. cbn [x_code x_data x_next x_level]. repeat split; intros; try discriminate; reflexivity.
+      * right. unfold exn_ok. cbn [x_code x_data x_next x_level]. repeat split; intros; try discriminate; reflexivity.
+  - right. unfold exn_ok. cbn [x_code x_data x_next x_level]. repeat split; intros; auto. lia.
 Qed.
 
 Lemma rgood_err {A} m : rgood (@err A m).
@@ -232,7 +240,7 @@ Create HintDb np.
 #[local] Hint Resolve wf_set_scopes wf_set_ctx wf_set_trace wf_set_test wf_set_levels wf_set_limit
   wf_scopes : wf.
 #[local] Hint Resolve exn_ok_molt_err_v exn_ok_molt_err exn_ok_molt_err2 exn_ok_break exn_ok_continue
-  exn_ok_return_err exn_ok_return_plain exn_ok_add_info : exn.
+  exn_ok_return_err exn_ok_return_plain exn_ok_add_info level_of_int_lt : exn.
 #[local] Hint Resolve rgood_err rgood_of_sum : rgood.
 
 Ltac is_M X :=
@@ -1604,6 +1612,12 @@ Proof.
   unfold eval_value in E. rewrite E in P. apply P.
 Qed.
 
+(* in particular its level fits a usize: the -level entry `catch` stores for it ([return_options],
+   through `as MoltInt`) reads back ([level_of_int]) as the same level *)
+Theorem eval_exn_level : forall fuel st v st' e,
+  wf_state st -> eval_value U fuel st v = (st', Err e) -> x_level e < 2 ^ 64.
+Proof. intros fuel st v st' e H E. apply (eval_exn_ok fuel st v st' e H E). Qed.
+
 (* any sequence of evaluations on one interpreter; the sequence is cut at the first evaluation
    on which the model runs out of fuel (the model says nothing about the state after that) *)
 Fixpoint history (fuel : nat) (st : interp) (scripts : list value) : list (res value) :=
@@ -1747,6 +1761,7 @@ Print Assumptions run_exec_np.
 Print Assumptions eval_no_panic.
 Print Assumptions expr_no_panic.
 Print Assumptions eval_exn_ok.
+Print Assumptions eval_exn_level.
 Print Assumptions history_no_panic.
 Print Assumptions history_wf.
 Print Assumptions parse_expand_ok.
